@@ -21,6 +21,7 @@
 #include <poll.h>
 #include <signal.h>
 #include <sys/resource.h>
+#include <sys/timerfd.h>
 #include <sys/stat.h>
 #include <sys/wait.h>
 
@@ -35,8 +36,8 @@ static char uxf_dir[600], ctl_dir[600];
 
 enum fam { F_INJECT, F_RLIMIT, F_BURST, F_FORK, F_PLAIN };
 static const char *const fam_name[] = { "inject", "rlimit", "burst", "fork-cleanup", "plain" };
-enum flav { FL_PLAIN, FL_DNS, FL_LOCAL_ADDR, FL_TLS_BY_VALUE, FL_BAD_ATTR, FL_REFUSED, FL_ADDR_IN_USE, FL_CTL, FL_ACCEPT_EMPTY, FL_N };
-static const char *const flav_name[] = { "plain", "dns-name", "local-addr", "tls-by-value", "bad-attr", "refused", "addr-in-use", "ctl", "accept-empty" };
+enum flav { FL_PLAIN, FL_DNS, FL_LOCAL_ADDR, FL_TLS_BY_VALUE, FL_BAD_ATTR, FL_REFUSED, FL_ADDR_IN_USE, FL_CTL, FL_ACCEPT_EMPTY, FL_BLOCKING_ACCEPT, FL_CONNECTING, FL_N };
+static const char *const flav_name[] = { "plain", "dns-name", "local-addr", "tls-by-value", "bad-attr", "refused", "addr-in-use", "ctl", "accept-empty", "blocking-accept", "connect-pending" };
 
 struct scn { enum vtp tp; enum flav fl; };
 struct site { int scn; int call; int idx; int err; };
@@ -49,7 +50,7 @@ static bool flav_ok(enum vtp tp, enum flav fl)
 {
     bool tcpb = vtp_is_tcp_based(tp);    /* utls counts: it has a TLS half */
     switch (fl) {
-    case FL_DNS: case FL_LOCAL_ADDR: return tcpb && tp != TP_UTLS_UX;
+    case FL_DNS: case FL_LOCAL_ADDR: case FL_CONNECTING: return tcpb && tp != TP_UTLS_UX;
     case FL_TLS_BY_VALUE: return vtp_is_tls(tp) || tp == TP_UTLS_UX;
     default: return true;
     }
@@ -133,6 +134,48 @@ struct live { struct xcm_socket *sv, *cl, *ac; bool ready; bool bytestream; char
 static int step_no; static int fork_at_step = -1;
 static void at_step(struct live *lv);
 
+
+/* blocking xcm_accept with wake-ups that bring no connection: control clients attach while the server waits, and the injection family makes
+ * accept4 report EAGAIN after the wake-up (a connection that was reset before it could be accepted).  The client lives in a helper process
+ * and connects a little later.  A safety alarm interrupts the wait should the helper never get through. */
+static void on_alarm(int sig) { (void)sig; }
+static void blocking_accept(const struct scn *sc, vrng *r, struct live *lv, const char *caddr, struct xcm_attr_map *am)
+{
+    int pp[2]; if (pipe(pp) < 0) return;
+    vs_mark_harness_fd(pp[0]); vs_mark_harness_fd(pp[1]);
+    int delay = 15 + (int)vrnd_n(r, 50);
+    char ca[800]; snprintf(ca, sizeof ca, "%s", caddr); if (sc->tp == TP_UTLS_UX && vrnd_p(r, 50)) { const char *q = strchr(caddr, ':'); snprintf(ca, sizeof ca, "tls:%s", q + 1); }
+    fflush(stdout); fflush(stderr);
+    pid_t h = fork();
+    if (h == 0) {
+        close(pp[1]);
+        struct rlimit rl; if (getrlimit(RLIMIT_NOFILE, &rl) == 0) { rl.rlim_cur = rl.rlim_max < 4096 ? rl.rlim_max : 4096; setrlimit(RLIMIT_NOFILE, &rl); }
+        { char np[700]; snprintf(np, sizeof np, "%s/no-ctl", va.dir); setenv("XCM_CTL", np, 1); }     /* the helper's own sockets leave no control files behind */
+        napms(delay);
+        struct xcm_attr_map *m = xcm_attr_map_create(); if (lv->bytestream) xcm_attr_map_add_str(m, "xcm.service", "bytestream");
+        struct xcm_socket *x = NULL; for (int t = 0; t < 40 && !x; t++) { x = xcm_connect_a(ca, m); if (!x) napms(25); }
+        char b; if (read(pp[0], &b, 1) < 0) {}
+        _exit(0);
+    }
+    close(pp[0]);
+    int cfd[4]; int ncfd = 0;
+    if (getenv("XCM_CTL") && !strcmp(getenv("XCM_CTL"), ctl_dir)) ncfd = vctl_connect_all(ctl_dir, cfd, NULL, 1 + (int)vrnd_n(r, 3));
+    if (ncfd) vobs("blocking_accepts_with_control_clients_attaching", 1);
+    struct sigaction sa = { 0 }, osa; sa.sa_handler = on_alarm; sigaction(SIGALRM, &sa, &osa);
+    { struct vs_scope bsc = { .active = true, .nonblocking = false, .api = "xcm_set_blocking", .ep = 2, .plan = &plan }; vs_enter(&bsc); xcm_set_blocking(lv->sv, true); vs_leave(); }
+    alarm(20);
+    { struct vs_scope bsc = { .active = true, .nonblocking = false, .api = "xcm_accept_a", .ep = 1, .plan = &plan }; vs_enter(&bsc); lv->ac = xcm_accept_a(lv->sv, am); int se = errno; vs_leave();
+      if (!lv->ac) { vobs("api_failures", 1); plant_decoy(); if (se == EINTR) vobs("blocking_accept_ended_by_safety_alarm", 1); } else vobs("blocking_accepts_returned_a_connection", 1); }
+    alarm(0); sigaction(SIGALRM, &osa, NULL);
+    { struct vs_scope bsc = { .active = true, .nonblocking = false, .api = "xcm_set_blocking", .ep = 2, .plan = &plan }; vs_enter(&bsc); xcm_set_blocking(lv->sv, false); if (lv->ac) xcm_set_blocking(lv->ac, false); vs_leave(); }
+    /* let the helper's connect complete (TLS handshake), exchange nothing */
+    for (int i = 0; lv->ac && i < 400; i++) { if (S_finish(lv->ac, 1) == 0 || errno != EAGAIN) break; napms(1); }
+    for (int i = 0; i < ncfd; i++) close(cfd[i]);
+    close(pp[1]);
+    napms(2); kill(h, SIGKILL);       /* it may still sit in a connect nobody will answer */
+    int st; waitpid(h, &st, 0);
+}
+
 static void scenario(const struct scn *sc, vrng *r, struct live *lv_out)
 {
     struct live lv; memset(&lv, 0, sizeof lv);
@@ -148,7 +191,7 @@ static void scenario(const struct scn *sc, vrng *r, struct live *lv_out)
     case TP_UXF: snprintf(lv.uxf_path, sizeof lv.uxf_path, "%s/s%d-%d", uxf_dir, (int)getpid(), ctr); snprintf(saddr, sizeof saddr, "uxf:%s", lv.uxf_path); break;
     default: snprintf(saddr, sizeof saddr, "%s:127.0.0.1:0", pr); break;
     }
-    int blocker = -1;
+    int blocker = -1; struct vnet_noanswer na; bool have_na = false; na.lfd = -1; na.ncfd = 0;
     if (sc->fl == FL_ADDR_IN_USE && sc->tp != TP_UX && sc->tp != TP_UXF) {
         const char *ips[1] = { "127.0.0.1" }; int port = vnet_pick_port(ips, 1);
         blocker = vnet_listen("127.0.0.1", port, 1);
@@ -181,7 +224,13 @@ static void scenario(const struct scn *sc, vrng *r, struct live *lv_out)
             if (sc->tp == TP_UTLS_UX) snprintf(caddr, sizeof caddr, "tls:%s", strchr(la, ':') + 1); }
         if (sc->fl == FL_REFUSED) { S_close(&lv.sv, 2); }      /* nobody listens any more */
         if (sc->fl == FL_ACCEPT_EMPTY) { lv.ac = S_accept(lv.sv, am); }
-        lv.cl = S_connect(caddr, cm);
+        if (sc->fl == FL_CONNECTING) {
+            /* the connect attempt stays in progress (the listener's queue is full, its SYNs are dropped) until tcp.connect_timeout ends it */
+            const char *ips[1] = { "127.0.0.1" }; int port = vnet_pick_port(ips, 1);
+            if (port > 0 && vnet_noanswer_open(&na, "127.0.0.1", port) == 0) { have_na = true; snprintf(caddr, sizeof caddr, "%s:127.0.0.1:%d", pr, port); xcm_attr_map_add_double(cm, "tcp.connect_timeout", 1.2); vobs("connects_kept_pending", 1); }
+        }
+        if (sc->fl == FL_BLOCKING_ACCEPT) blocking_accept(sc, r, &lv, caddr, am);
+        else lv.cl = S_connect(caddr, cm);
         at_step(&lv);
         for (int i = 0; lv.cl && lv.sv && i < 3000; i++) {
             if (!lv.ac) { lv.ac = S_accept(lv.sv, am); if (!lv.ac && errno != EAGAIN) break; }
@@ -191,6 +240,7 @@ static void scenario(const struct scn *sc, vrng *r, struct live *lv_out)
             if ((f1 < 0 && e1 != EAGAIN) || (lv.ac && f2 < 0 && e2 != EAGAIN)) break;
             if (i == 3) at_step(&lv);
             if (i > 30) napms(1);
+            if (sc->fl == FL_CONNECTING) { napms(25); if (i > 80) break; }       /* nothing happens until the timeout: do not spin */
         }
         if (lv.cl && !lv.sv) for (int i = 0; i < 200; i++) { if (S_finish(lv.cl, 0) == 0 || errno != EAGAIN) break; napms(1); }
         at_step(&lv);
@@ -203,6 +253,7 @@ static void scenario(const struct scn *sc, vrng *r, struct live *lv_out)
     }
     xcm_attr_map_destroy(sm); xcm_attr_map_destroy(cm); xcm_attr_map_destroy(am);
     if (blocker >= 0) close(blocker);
+    if (have_na) vnet_noanswer_close(&na);
     if (lv_out) { *lv_out = lv; return; }
     /* close in a seed-chosen order */
     int order = (int)vrnd_n(r, 3);
@@ -275,6 +326,10 @@ static void at_step(struct live *lv)
     if (lv->cl) { SCX("xcm_await", 0); xcm_await(lv->cl, XCM_SO_RECEIVABLE); vs_leave(); }
     if (lv->ac) { SCX("xcm_await", 1); xcm_await(lv->ac, XCM_SO_RECEIVABLE | XCM_SO_SENDABLE); vs_leave(); }
     if (lv->sv) { SCX("xcm_await", 2); xcm_await(lv->sv, XCM_SO_ACCEPTABLE); vs_leave(); }
+    /* timers the library has armed for the owner (connect timeout, address fall-back delay): remaining time of each */
+    double t_before = vnow(); double rem_before[64]; int tfd[64]; int ntf = 0;
+    for (int fd = 0; fd < 1024 && ntf < 64; fd++) if (vs_ledger_owner(fd) == VS_OWN_XCM && vs_ledger_creator(fd) == VS_TIMERFD_CREATE) {
+        struct itimerspec it; if (timerfd_gettime(fd, &it) == 0 && (it.it_value.tv_sec || it.it_value.tv_nsec)) { tfd[ntf] = fd; rem_before[ntf] = (double)it.it_value.tv_sec + (double)it.it_value.tv_nsec / 1e9; ntf++; } }
     fflush(stdout); fflush(stderr);
     pid_t pid = fork();
     if (pid < 0) return;
@@ -293,6 +348,15 @@ static void at_step(struct live *lv)
         exit(0);        /* LeakSanitizer judges the child's heap */
     }
     int st = 0; waitpid(pid, &st, 0);
+    /* the owner has made no call meanwhile: a timer that had not yet run out must still be armed */
+    { double el = vnow() - t_before;
+      for (int i = 0; i < ntf; i++) {
+          struct itimerspec it; if (timerfd_gettime(tfd[i], &it) != 0) continue;
+          bool armed = it.it_value.tv_sec || it.it_value.tv_nsec;
+          if (rem_before[i] - el < 0.15) { vobs("owner_timers_too_close_to_expiry_to_judge", 1); continue; }
+          vobs("owner_timers_checked_across_cleanup", 1);
+          if (!armed) lv8("owner-timer-disarmed", "cleanup-child", "a timer of the owner (descriptor %d, %.2f s left) was armed when the child was forked; after the child's xcm_cleanup, %.2f s later and with no call made by the owner, it is disarmed: the owner's connect timeout will never fire", tfd[i], rem_before[i], el);
+      } }
     for (int i = 0; i < ncfd; i++) close(cfd[i]);
     if (!(WIFEXITED(st) && WEXITSTATUS(st) == 0)) {
         char s2[64]; if (WIFSIGNALED(st)) snprintf(s2, sizeof s2, "sig%d", WTERMSIG(st)); else snprintf(s2, sizeof s2, "exit%d", WEXITSTATUS(st));
@@ -307,7 +371,8 @@ static const int inj_calls[] = { VS_SOCKET, VS_ACCEPT, VS_EPOLL_CREATE, VS_EVENT
 static int errs_for(int call, int *out)
 {
     switch (call) {
-    case VS_SOCKET: case VS_ACCEPT: case VS_EPOLL_CREATE: case VS_EVENTFD: case VS_TIMERFD_CREATE: out[0] = EMFILE; out[1] = ENFILE; out[2] = ENOMEM; return 3;
+    case VS_ACCEPT: out[0] = EMFILE; out[1] = ENFILE; out[2] = ENOMEM; out[3] = EAGAIN; return 4;       /* EAGAIN: woken up, but the connection is gone again */
+    case VS_SOCKET: case VS_EPOLL_CREATE: case VS_EVENTFD: case VS_TIMERFD_CREATE: out[0] = EMFILE; out[1] = ENFILE; out[2] = ENOMEM; return 3;
     case VS_CONNECT: out[0] = ECONNREFUSED; out[1] = ENETUNREACH; out[2] = EACCES; return 3;
     case VS_BIND: out[0] = EADDRINUSE; out[1] = EACCES; return 2;
     case VS_LISTEN: out[0] = EADDRINUSE; return 1;
@@ -383,7 +448,7 @@ static void one_case(long idx, void *arg)
     /* per-case directories: files left by an earlier case that died must not be charged to this one */
     snprintf(uxf_dir, sizeof uxf_dir, "%s/uxf8-%d", va.dir, (int)getpid()); mkdir(uxf_dir, 0700);
     snprintf(ctl_dir, sizeof ctl_dir, "%s/ctl8-%d", va.dir, (int)getpid()); mkdir(ctl_dir, 0700);
-    if (sc->fl == FL_CTL) { setenv("XCM_CTL", ctl_dir, 1); vs_ledger_reset(); }
+    if (sc->fl == FL_CTL || sc->fl == FL_BLOCKING_ACCEPT) { setenv("XCM_CTL", ctl_dir, 1); vs_ledger_reset(); }
     vs_set_watch(false, true);
     vs_plan_init(&plan, ss); plan.quiet = true;
     struct fdtab base; fdtab_take(&base);
